@@ -88,3 +88,73 @@ Fixpoint check_all_from (i : N) (cs : list case) : list (N * N) :=
   end.
 Definition check_all := check_all_from 0.
 Definition guard_count (cs : list case) : N := N.of_nat (List.length (filter in_domain cs)).
+
+(* ================= Stash ================= *)
+Definition lres_eqb (a b : list form * bool) : bool := forms_eqb (fst a) (fst b) && Bool.eqb (snd a) (snd b).
+(* memory, stash file, stash.tmp, what a fresh Stash loads (forms, loaded without a reader failure) *)
+Definition sobs := (list form * option (list byte) * option (list byte) * (list form * bool))%type.
+Definition scobs := (prim * option (list byte) * option (list byte) * (list form * bool))%type.
+Record scase := { s_d0 : dir; s_ops : list sop; s_obs : list sobs; s_crash : list scobs }.
+
+Definition sobs_eqb (a b : sobs) : bool :=
+  let '(m1, h1, t1, l1) := a in let '(m2, h2, t2, l2) := b in
+  forms_eqb m1 m2 && obytes_eqb h1 h2 && obytes_eqb t1 t2 && lres_eqb l1 l2.
+
+(* the harness begins with a fresh Stash and LoadExpanded on the directory as it is *)
+Definition sstart (c : scase) : list form * dir := (fst (sload rd_paren (s_d0 c)), s_d0 c).
+
+Fixpoint run_sobs (sd : list form * dir) (ops : list sop) : list sobs :=
+  match ops with
+  | [] => []
+  | o :: ops' => let '(sd1, _) := sstep rd_paren sd o in
+                 (fst sd1, d_hist (snd sd1), d_tmp (snd sd1), sload rd_paren (snd sd1)) :: run_sobs sd1 ops'
+  end.
+
+Fixpoint scrash_ok (d0 : dir) (xs : list prim) (k : nat) (co : list scobs) : bool :=
+  match co with
+  | [] => Nat.eqb k (List.length xs)
+  | (x, h, t, l) :: co' =>
+      let d := crash_dir d0 xs k in
+      (match nth_error xs k with Some m => prim_shape_eqb m x | None => false end) &&
+      obytes_eqb (d_hist d) h && obytes_eqb (d_tmp d) t && lres_eqb (sload rd_paren d) l && scrash_ok d0 xs (S k) co'
+  end.
+
+Fixpoint sspec_ok (fs : list form) (ops : list sop) (os : list sobs) : bool :=
+  match ops, os with
+  | o :: ops', (m, _, _, l) :: os' =>
+      let fs' := sspec_step fs o in forms_eqb m fs' && lres_eqb l (fs', true) && sspec_ok fs' ops' os'
+  | _, _ => true
+  end.
+Definition scrash_spec_ok (fs : list form) (ops : list sop) (co : list scobs) : bool :=
+  let ss := sspec_states fs ops in
+  forallb (fun c => let '(_, _, _, l) := c in snd l && existsb (forms_eqb (fst l)) ss) co.
+
+(* the initial stash file is missing, or is what Clear writes or what Add writes for the forms it loads as *)
+Definition s_in_domain (c : scase) : bool :=
+  forallb (sop_encodable rd_paren) (s_ops c) &&
+  match d_hist (s_d0 c) with
+  | Some bs => let l := sload rd_paren (s_d0 c) in
+               snd l && forallb (sencodable rd_paren) (fst l) &&
+               (bytes_eqb bs (encode (fst l)) || bytes_eqb bs (enc_mixed (map (fun f => (true, f)) (fst l))))
+  | None => true
+  end.
+
+Definition check_scase (c : scase) : N :=
+  let sd := sstart c in
+  let m := run_sobs sd (s_ops c) in
+  let xs := snd (srun rd_paren sd (s_ops c)) in
+  let fs0 := fst sd in
+  let agree := list_eqb sobs_eqb m (s_obs c) &&
+               (match s_crash c with [] => true | co => scrash_ok (s_d0 c) xs 0 co end) in
+  let sok := sspec_ok fs0 (s_ops c) (s_obs c) && scrash_spec_ok fs0 (s_ops c) (s_crash c) in
+  if agree then (if s_in_domain c && negb sok then 3 else 0)
+  else if s_in_domain c && negb sok then 2 else 1.
+
+Fixpoint check_sall_from (i : N) (cs : list scase) : list (N * N) :=
+  match cs with
+  | [] => []
+  | c :: cs' => let r := check_scase c in
+                (if N.eqb r 0 then [] else [(i, r)]) ++ check_sall_from (N.succ i) cs'
+  end.
+Definition check_sall := check_sall_from 0.
+Definition sguard_count (cs : list scase) : N := N.of_nat (List.length (filter s_in_domain cs)).
